@@ -1,5 +1,6 @@
 import H8.Drv.Cost
 import H8.Drv.Bus
+import H8.Drv.Step
 open H8.Drv
 
 def handle (line : String) : String :=
@@ -7,6 +8,7 @@ def handle (line : String) : String :=
   | "cost" :: rest => costLine rest
   | ["bus09", ops] => bus09Line ops
   | "sweep09" :: rest => sweep09Line rest
+  | "step" :: rest => stepLine rest
   | _ => "bad-case"
 
 partial def loop (hin : IO.FS.Stream) (hout : IO.FS.Stream) : IO Unit := do
